@@ -1,20 +1,145 @@
-(* C20 — lemmas about Model/Strl.v *)
+(* C20 — lemmas about Model/Strl.v, part 1: structure of the compiled model, capacity. *)
 From Coq Require Import ZArith Bool List Lia ZifyBool.
 Import ListNotations.
 From Verif Require Import Model.Val Model.Strl.
 Open Scope Z_scope.
 
+(* ------------------------------------------------------------------ children, induction *)
+Definition children (e : expr) : list expr :=
+  match e with
+  | Choose _ _ _ _ _ _ | Alloc _ _ _ _ => []
+  | Min _ ks | Max _ ks | Objective _ ks => ks
+  | LessThan _ x y => [x; y]
+  | Scale _ _ _ k => [k]
+  end.
+
+Lemma subs_children : forall e, subs e = e :: flat_map subs (children e).
+Proof. destruct e; cbn [subs children flat_map]; rewrite ?app_nil_r; reflexivity. Qed.
+
+Section ExprInd.
+  Variable P : expr -> Prop.
+  Hypothesis step : forall e, Forall P (children e) -> P e.
+  Fixpoint expr_kids_ind (e : expr) : P e :=
+    step e
+      (match e as e0 return Forall P (children e0) with
+       | Choose _ _ _ _ _ _ => Forall_nil P
+       | Alloc _ _ _ _ => Forall_nil P
+       | Min _ ks | Max _ ks | Objective _ ks =>
+           (fix go (l : list expr) : Forall P l :=
+              match l with [] => Forall_nil P | x :: l' => Forall_cons x (expr_kids_ind x) (go l') end) ks
+       | LessThan _ x y => Forall_cons x (expr_kids_ind x) (Forall_cons y (expr_kids_ind y) (Forall_nil P))
+       | Scale _ _ _ k => Forall_cons k (expr_kids_ind k) (Forall_nil P)
+       end).
+End ExprInd.
+
+Lemma subs_refl : forall e, In e (subs e).
+Proof. intros e; rewrite subs_children; left; reflexivity. Qed.
+
+Lemma subs_kid : forall e k x, In k (children e) -> In x (subs k) -> In x (subs e).
+Proof.
+  intros e k x Hk Hx. rewrite subs_children. right. apply in_flat_map. exists k; auto.
+Qed.
+
+Lemma subs_trans : forall e x y, In x (subs e) -> In y (subs x) -> In y (subs e).
+Proof.
+  induction e using expr_kids_ind. intros x y Hx Hy.
+  rewrite subs_children in Hx. destruct Hx as [<-|Hx]; [exact Hy|].
+  apply in_flat_map in Hx. destruct Hx as [k [Hk Hx]].
+  rewrite Forall_forall in H. eapply subs_kid; eauto.
+Qed.
+
+(* ------------------------------------------------------------------ sums *)
+Lemma sumZ_app : forall l1 l2, sumZ (l1 ++ l2) = sumZ l1 + sumZ l2.
+Proof.
+  induction l1 as [|x l1 IH]; intros l2; cbn [app].
+  - change (sumZ []) with 0. lia.
+  - change (sumZ (x :: l1 ++ l2)) with (x + sumZ (l1 ++ l2)). change (sumZ (x :: l1)) with (x + sumZ l1).
+    rewrite IH. lia.
+Qed.
+
+Lemma sumZ_cons : forall x l, sumZ (x :: l) = x + sumZ l.
+Proof. reflexivity. Qed.
+
+Lemma sumZ_nonneg : forall l, (forall x, In x l -> 0 <= x) -> 0 <= sumZ l.
+Proof.
+  induction l; intros H; [cbn; lia|]. rewrite sumZ_cons.
+  assert (0 <= a) by (apply H; left; reflexivity).
+  assert (0 <= sumZ l) by (apply IHl; intros; apply H; right; assumption). lia.
+Qed.
+
+Lemma sumZ_map_le : forall {A} (f g : A -> Z) l, (forall x, In x l -> f x <= g x) ->
+  sumZ (map f l) <= sumZ (map g l).
+Proof.
+  induction l; intros H; [cbn; lia|]. cbn [map]. rewrite !sumZ_cons.
+  assert (f a <= g a) by (apply H; left; reflexivity).
+  assert (sumZ (map f l) <= sumZ (map g l)) by (apply IHl; intros; apply H; right; assumption). lia.
+Qed.
+
+Lemma sumZ_flat_map : forall {A B} (F : A -> list B) (f : B -> Z) l,
+  sumZ (map f (flat_map F l)) = sumZ (map (fun x => sumZ (map f (F x))) l).
+Proof.
+  induction l; [reflexivity|]. cbn [flat_map map]. rewrite map_app, sumZ_app, sumZ_cons, IHl. reflexivity.
+Qed.
+
+(* ------------------------------------------------------------------ rows *)
+Lemma lin_val_app : forall a l1 l2, lin_val a (l1 ++ l2) = lin_val a l1 + lin_val a l2.
+Proof. induction l1 as [|[c x] l1]; intros; cbn [lin_val app]; [lia|]. rewrite IHl1. lia. Qed.
+
+Lemma lin_split : forall a l, terms_val a (lin_vars l) + lin_const l = lin_val a l.
+Proof.
+  induction l as [|[c [v|k]] l]; cbn [lin_vars lin_const lin_val terms_val aval]; lia.
+Qed.
+
+Lemma mkrow_LE : forall a l r, row_holds a (mkrow LE l r) = true <-> lin_val a l <= r.
+Proof. intros. unfold row_holds, mkrow; cbn [r_sense r_terms r_rhs]. pose proof (lin_split a l). lia. Qed.
+Lemma mkrow_GE : forall a l r, row_holds a (mkrow GE l r) = true <-> lin_val a l >= r.
+Proof. intros. unfold row_holds, mkrow; cbn [r_sense r_terms r_rhs]. pose proof (lin_split a l). lia. Qed.
+Lemma mkrow_EQ : forall a l r, row_holds a (mkrow EQ l r) = true <-> lin_val a l = r.
+Proof. intros. unfold row_holds, mkrow; cbn [r_sense r_terms r_rhs]. pose proof (lin_split a l). lia. Qed.
+
+(* ------------------------------------------------------------------ what a satisfying assignment gives *)
+Record facts (pt : ptab) (now g : Z) (a : asg) (e : expr) : Prop := {
+  f_rows : forall e' r, In e' (subs e) -> In r (own_rows pt now e') -> row_holds a r = true;
+  f_vars : forall e' d, In e' (subs e) -> In d (own_vars pt now e') -> dom_ok a d = true;
+  f_caps : forall k, In k (reg_keys (e_regs pt now g e)) -> row_holds a (cap_row pt (e_regs pt now g e) k) = true
+}.
+
+Lemma compile_inv : forall pt now g e cs, compile pt now g e = Ok cs ->
+  exists n ks, e = Objective n ks /\ forallb (no_throw pt now) ks = true /\
+    cs = {| cs_vars := e_vars pt now e; cs_rows := e_rows pt now e ++ cap_rows pt (e_regs pt now g e);
+            cs_obj := pu_util (parse pt now e) |}.
+Proof.
+  intros pt now g e cs H. destruct e; cbn [compile] in H; try discriminate.
+  destruct (forallb (no_throw pt now) kids) eqn:Hnt; [|discriminate].
+  injection H as <-. eauto.
+Qed.
+
+Lemma sat_facts : forall pt now g e cs a,
+  compile pt now g e = Ok cs -> sat cs a = true -> facts pt now g a e.
+Proof.
+  intros pt now g e cs a Hc Hs. destruct (compile_inv _ _ _ _ _ Hc) as [n [ks [-> [_ ->]]]].
+  unfold sat in Hs; cbn [cs_rows cs_vars] in Hs. apply andb_prop in Hs. destruct Hs as [Hr Hv].
+  rewrite forallb_app in Hr. apply andb_prop in Hr. destruct Hr as [Hr Hk].
+  rewrite forallb_forall in Hr, Hv, Hk.
+  constructor.
+  - intros e' r He' Hin. apply Hr. unfold e_rows. apply in_flat_map. eauto.
+  - intros e' d He' Hin. apply Hv. unfold e_vars. apply in_flat_map. eauto.
+  - intros k Hin. apply Hk. unfold cap_rows. apply in_map. exact Hin.
+Qed.
+
+Lemma facts_sub : forall pt now g a e, facts pt now g a e ->
+  (forall e' r, In e' (subs e) -> In r (own_rows pt now e') -> row_holds a r = true) /\
+  (forall e' d, In e' (subs e) -> In d (own_vars pt now e') -> dom_ok a d = true).
+Proof. intros. destruct H. split; assumption. Qed.
+
 (* ------------------------------------------------------------------ utility = objective *)
 Lemma utility_is_objective : forall pt now g e cs a,
   compile pt now g e = Ok cs -> sol_util (solve pt now a e) = objective_value cs a.
 Proof.
-  intros pt now g e cs a H.
-  destruct e; cbn [compile] in H; try discriminate.
-  destruct (forallb (no_throw pt now) kids) eqn:Hnt; [|discriminate].
-  injection H as <-.
+  intros pt now g e cs a H. destruct (compile_inv _ _ _ _ _ H) as [n [ks [-> [_ ->]]]].
   unfold objective_value; cbn [cs_obj].
   cbn [solve parse generic pu_util].
-  destruct (lin_val a (concat (map pu_util (map (parse pt now) kids))) =? 0) eqn:Hz; reflexivity.
+  destruct (lin_val a (concat (map pu_util (map (parse pt now) ks))) =? 0) eqn:Hz; reflexivity.
 Qed.
 
 (* ------------------------------------------------------------------ F13: the general capacity statement is false *)
